@@ -141,6 +141,40 @@ func (c *Ctx) rulesR3resolver() {
 							if sameSliceVar(v, call) || flowsFrom(v, func(x ssa.Value) bool { return x == ssa.Value(call) }) {
 								feeds = true
 							}
+							// a verdict computed from the list (len(missing) == 0)
+							if bt, ok := v.Type().Underlying().(*types.Basic); ok && bt.Kind() == types.Bool {
+								seenV := map[ssa.Value]bool{}
+								var in func(x ssa.Value, d int) bool
+								in = func(x ssa.Value, d int) bool {
+									if x == nil || d > 8 || seenV[x] {
+										return false
+									}
+									seenV[x] = true
+									if x == ssa.Value(call) {
+										return true
+									}
+									switch y := x.(type) {
+									case *ssa.BinOp:
+										return in(y.X, d+1) || in(y.Y, d+1)
+									case *ssa.UnOp:
+										return in(y.X, d+1)
+									case *ssa.Phi:
+										for _, e := range y.Edges {
+											if in(e, d+1) {
+												return true
+											}
+										}
+									case *ssa.Call:
+										if bi, ok := y.Call.Value.(*ssa.Builtin); ok && bi.Name() == "len" {
+											return in(y.Call.Args[0], d+1)
+										}
+									}
+									return false
+								}
+								if in(v, 0) {
+									feeds = true
+								}
+							}
 						}
 					}
 					if feeds {
